@@ -350,20 +350,24 @@ def _misc_pairs(ctx):
     e = prog.fn(enc_key(ty))
     pe = Prov(e)
     rc = codec.returned_collection(e, pe, "Array")
-    els = codec.vec_elements(e, pe, *rc) if rc else None
+    from lib.seq import Seq, show_seq
+    s = Seq(e, pe).of_local(*rc) if rc else None
     problems = []
-    if agg.problem or els is None:
+    if agg.problem or s is None:
         problems.append("cannot extract tables")
     else:
-        fixed = [el for el in els if el["loop"] is None]
-        for i, el in enumerate(fixed):
-            kind, field = codec.emit_kind(prog, e, pe, el)
+        parts = list(s[1]) if s[0] == "cat" else [s]
+        fixed = parts[0][1] if parts and parts[0][0] == "lit" else ()
+        tail = parts[1:] if parts and parts[0][0] == "lit" else parts
+        for i, term in enumerate(fixed):
+            kind, field = codec.emit_kind(prog, e, pe, {"term": term, "op": {"k": "const", "ty": "?", "val": None}, "at": (0, "term")})
             dd = codec.slot_kind(prog, d, pd, vl, agg, field) if field in agg.fields else None
             if not dd or dd["slot"] != i or dd["kind"] != kind:
                 problems.append("slot %d: encoded from `%s` as %s, decoded %s" % (i, field, kind, (dd or {}).get("kind")))
-        tail = [el for el in els if el["loop"] is not None]
-        if len(tail) != 1:
-            problems.append("expected one loop emitting the trailing byte strings")
+        if len(fixed) != 4:
+            problems.append("%d fixed slots before the tail, expected 4" % len(fixed))
+        if len(tail) != 1 or tail[0][0] != "map":
+            problems.append("expected one variable tail after the fixed slots: %s" % show_seq(s)[:120])
     ctx.ob("R-1", "pair:%s" % ty, not problems, "CoseKdfContext: the four fixed slots are inverse tables (the variable tail is C18 R-kdf)",
            where=d.span, detail={"problems": problems})
     return n
